@@ -283,6 +283,9 @@ func (fv *FV) callMods(call *ast.CallExpr, ms *modSet) {
 	}
 	// math/big in-place operations
 	if callee.Pkg() != nil && callee.Pkg().Path() == "math/big" && recv != nil {
+		if bigReadOnly[callee.Name()] {
+			return
+		}
 		if r := fv.rootObj(recv); r != nil {
 			ms.objs[r] = true
 			ms.whole[r] = true
@@ -317,6 +320,12 @@ func (fv *FV) callMods(call *ast.CallExpr, ms *modSet) {
 		}
 	}
 }
+
+// math/big methods that only read their receiver (every other method of the package is taken to write it)
+var bigReadOnly = map[string]bool{"Cmp": true, "CmpAbs": true, "Sign": true, "String": true, "Text": true, "Int64": true,
+	"Uint64": true, "IsInt64": true, "IsUint64": true, "BitLen": true, "Bit": true, "Bytes": true, "IsInt": true,
+	"Float64": true, "FloatString": true, "MarshalJSON": true, "MarshalText": true, "Append": true, "Format": true,
+	"ProbablyPrime": true, "TrailingZeroBits": true, "FillBytes": true, "Num": true}
 
 func (fv *FV) havoc(st *State, ms *modSet) {
 	done := map[types.Object]bool{}
